@@ -371,3 +371,113 @@ def cost_results():
     for r in parallel_map(_cost_job, ["bool", "arith"]):
         out.extend(r)
     return out
+
+
+# ------------------------------------------------------------------------------------------------ M5
+def copy_pairs():
+    """(f1, f2): built in two different source environments by the same number of constructions in the same
+    order, so that corresponding nodes carry the same ids although they differ in structure."""
+    P = lambda v: ("py", v)
+    return [
+        (("LT", "x", ("Plus", "y", ("Int", P(1)))), ("LE", "r", ("Times", "s", ("Real", P(Fraction(15, 2)))))),
+        (("And", "a", ("Or", "b", ("Not", "c"))), ("Or", "c", ("And", "a", ("Not", "b")))),
+        (("Equals", ("BVAdd", "u", "v"), ("BVNot", "u")), ("BVULT", ("BVMul", "v", "u"), ("BVNeg", "v"))),
+        (("Equals", ("Select", "m", "x"), "y"), ("Equals", ("Store", "m", "y", "x"), "m")),
+        (("ForAll", ("list", "x"), ("LT", "x", "y")), ("Exists", ("list", "y"), ("LE", "y", "x"))),
+        (("Equals", "e1", "e2"), ("Not", ("Equals", "e2", "e1"))),
+        (("Equals", ("StrLength", "st"), "x"), ("LT", "x", ("StrLength", ("StrConcat", "st", "st")))),
+    ]
+
+
+COPY_SYMS = dict(SYMS, e1=("CUSTOM", "U"), e2=("CUSTOM", "U"))
+
+
+def _struct(w, n, seen=None):
+    """Structure of a node as a nested tuple of operator names, payload renderings and children."""
+    op = w.opname(n)
+    p = w.npayload(n)
+    if op == "SYMBOL":
+        ps = ("sym", p[0], str(w.sort_of_tyobj(p[1])))
+    elif op in ("FORALL", "EXISTS"):
+        ps = tuple(_struct(w, v) for v in p)
+    elif op == "FUNCTION":
+        ps = _struct(w, p)
+    elif w.is_node(p):
+        ps = _struct(w, p)
+    elif isinstance(p, AObj):
+        ps = str(w.sort_of_tyobj(p))
+    else:
+        ps = repr(p)
+    return (op, ps) + tuple(_struct(w, a) for a in w.nargs(n))
+
+
+def _nodes(w, n, out=None):
+    out = {} if out is None else out
+    if id(n) in out:
+        return out
+    out[id(n)] = n
+    for a in w.nargs(n):
+        _nodes(w, a, out)
+    p = w.npayload(n)
+    if w.opname(n) in ("FORALL", "EXISTS"):
+        for v in p:
+            _nodes(w, v, out)
+    elif w.is_node(p):
+        _nodes(w, p, out)
+    return out
+
+
+def _copy_job(idx):
+    t1, t2 = copy_pairs()[idx]
+    tag = "%s / %s" % (_show(t1), _show(t2))
+
+    def one(ex):
+        it = Interp(ex, max_steps=3000000)
+        w = RealMgrWorld().attach(it)
+        dst = (w.env, w.mgr)
+        srcs = [w.new_environment(), w.new_environment()]
+        built = []
+        for (env, mgr), t in zip(srcs, (t1, t2)):
+            with w.using(env, mgr):
+                syms = dict((n, w.symbol(n, s)) for n, s in sorted(COPY_SYMS.items()))
+                built.append(_build(w, syms, t))
+        f1, f2 = built
+        problems = []
+        copies = []
+        for f, (env, mgr) in ((f1, srcs[0]), (f2, srcs[1]), (f1, srcs[0])):
+            g = it.call(it.getattr(dst[1], "normalize"), [f])
+            copies.append(g)
+            if not w.is_node(g):
+                return ("bad", "copy|%s" % tag, "normalize returned %r" % (g,))
+            if _struct(w, g) != _struct(w, f):
+                return ("bad", "copy|%s" % tag, "the copy of %s into another environment is %s" % (sc_str(w, f), sc_str(w, g)))
+            src_tab = set(id(v) for v in mgr.attrs["formulae"].values())
+            dst_tab = set(id(v) for v in dst[1].attrs["formulae"].values())
+            for nid, nd in _nodes(w, g).items():
+                if nid in src_tab:
+                    return ("bad", "shared|%s" % tag, "the copy of %s shares the node %s with the source environment" % (sc_str(w, f), sc_str(w, nd)))
+                if nid not in dst_tab:
+                    return ("bad", "foreign|%s" % tag, "the copy of %s contains the node %s, which is not registered in the target manager" % (sc_str(w, f), sc_str(w, nd)))
+        if copies[0] is not copies[2]:
+            return ("bad", "recopy|%s" % tag, "copying %s twice into the same environment gives two objects" % sc_str(w, f1))
+        return ("ok", tag, "structurally identical copies, no shared objects, second copy is the first")
+    try:
+        paths = Explorer(max_paths=4).run(one)
+    except Unsupported as e:
+        return [("unsupported", tag, str(e))]
+    out = []
+    for p in paths:
+        out.append(p.value if p.kind == "return" else ("unsupported", tag, "%s %s" % (p.kind, str(p.value)[:200])))
+    return out
+
+
+def sc_str(w, n):
+    from .. import simpcheck as sc
+    return sc.node_str(w, n)
+
+
+def copy_results():
+    out = []
+    for r in parallel_map(_copy_job, list(range(len(copy_pairs())))):
+        out.extend(r)
+    return out
